@@ -299,6 +299,25 @@ def repeat_case(rng):
     return together, singles
 
 
+
+def loop_case(rng):
+    """the same bodies inside a guarded recursion: iteration j must produce what a single call with the values of j produces"""
+    decls = [d for d in rng.sample(REPEAT_DECLS, rng.randrange(2, 6)) if not d.startswith('@media')]
+    body = ' '.join(decls)
+    n = rng.randrange(2, 5)
+    loop = REPEAT_HELPERS + '.loop(@i) when (@i > 0) { .it@{i} { @p: (@i * 1px); @k: (@i * 1%%); %s } .loop(@i - 1); }\n.loop(%d);\n' % (body, n)
+    singles = [REPEAT_HELPERS + '.m(@p, @k, @i){ %s }\n.it%d { .m(%dpx, %d%%, %d); }\n' % (body, j, j, j, j) for j in range(1, n + 1)]
+    return loop, singles, n
+
+
+def rules_with_prefix(css, prefix):
+    out = []
+    for ctx, sels, decls in canon.rules(css):
+        if any(x == prefix or x.startswith(prefix + ' ') or x.startswith(prefix + '-') or x.startswith(prefix + ':') for x in sels):
+            out.append((tuple(ctx) if isinstance(ctx, (list, tuple)) else ctx, tuple(sels), tuple((p_, v_) for p_, v_, _i in decls)))
+    return out
+
+
 def rules_by_prefix(css, j):
     """the rules of the output that belong to calling rule .r<j> (selector or media content mentioning it), as canonical text"""
     out = []
@@ -431,6 +450,38 @@ def run(tier):
                 chk.violation({'kind': 'repeat', 'source': together, 'call': j, 'expected': [list(map(list, w[1:])) for w in want],
                                'actual': [list(map(list, g[1:])) for g in got], 'single_source': singles[j],
                                'problem': 'the rules produced for calling rule .r%d differ from those of the sheet with that call alone' % j})
+                break
+    # ---- the same inside a guarded recursion (the nodes of the body are shared by all iterations)
+    nloop = 60 if tier == 'quick' else 1200
+    lcases = [loop_case(rng) for _ in range(nloop)]
+    ljobs = []
+    for loop, singles, _n in lcases:
+        ljobs.append((loop, dict(minify=True)))
+        ljobs += [(s_, dict(minify=True)) for s_ in singles]
+    lres = C.compile_many(ljobs)
+    pos = 0
+    stats['loop_cases'] = nloop
+    stats['loop_cases_compared'] = 0
+    for loop, singles, n_ in lcases:
+        rt = lres[pos]
+        rs = lres[pos + 1:pos + 1 + len(singles)]
+        pos += 1 + len(singles)
+        chk.count(('loop', loop), nontrivial=True)
+        if len(chk.violations) > 5:
+            break
+        if any(r_[0] != 'ok' for r_ in rs):
+            continue
+        if rt[0] != 'ok':
+            chk.violation({'kind': 'loop-error', 'source': loop, 'expected': 'compiles like each call alone', 'actual': list(rt[:3])})
+            continue
+        stats['loop_cases_compared'] += 1
+        for j, r_ in enumerate(rs, 1):
+            want = rules_with_prefix(r_[1], '.it%d' % j)
+            got = rules_with_prefix(rt[1], '.it%d' % j)
+            if want != got:
+                chk.violation({'kind': 'loop', 'source': loop, 'iteration': j, 'expected': [list(map(list, w[1:])) for w in want],
+                               'actual': [list(map(list, g[1:])) for g in got], 'single_source': singles[j - 1],
+                               'problem': 'iteration %d of the recursion produced something else than the single call with its values' % j})
                 break
     C.tie_verdict(chk, build, missing, disagreements, 'Lessm.Mixin.compile vs lesscpy',
                   'random mixin programs were run against the inlining oracle: no failing input')
